@@ -1,1 +1,17 @@
 import BddVerif.Props.C09
+#print axioms B.Props.C09.cnt_eq_filter_length
+#print axioms B.Props.C09.all_vals_enumeration
+#print axioms B.Props.C09.exact_card_spec
+#print axioms B.Props.C09.exact_card_canonical
+#print axioms B.Props.C09.exact_card_red
+#print axioms B.Props.C09.exact_card_le
+#print axioms B.Props.C09.clause_card_spec
+#print axioms B.Props.C09.card_or_and
+#print axioms B.Props.C09.card_not
+#print axioms B.Props.C09.exact_card_apply
+#print axioms B.Props.C09.card_or_and_model
+#print axioms B.Props.C09.card_not_model
+#print axioms B.Props.C09.support_set_nodes
+#print axioms B.Props.C09.support_exact_reduced
+#print axioms B.Props.C09.support_exact
+#print axioms B.Props.C09.size_per_variable_partition
